@@ -479,3 +479,96 @@ fn brief_next(n: &Next) -> String {
         other => format!("{:?}", other),
     }
 }
+
+/// C06, consuming-client side: a server (an independent quinn endpoint speaking the wire format by hand) accepts a
+/// library Subscriber / Requestor / Replier, sends it something valid, then k bytes of a frame, and finishes the
+/// stream. The client's frame decoder must yield an error or the end of the stream — the monitors are the process'
+/// panic log and exit status (this runs in the C06 child process).
+pub async fn c06_client_stream_cuts(certs: &Certs) -> std::result::Result<u64, String> {
+    use selium::prelude::*;
+    use selium::std::codecs::StringCodec;
+    use selium_server::quic::{load_root_store, read_certs, server_config, ConfigOptions};
+    use std::sync::atomic::{AtomicUsize, Ordering};
+    let roots = load_root_store(certs.server_ca()).map_err(|e| e.to_string())?;
+    let (chain, key) = read_certs(certs.server_cert(), certs.server_key()).map_err(|e| e.to_string())?;
+    let cfg = server_config(roots, chain, key, ConfigOptions { keylog: false, stateless_retry: false, max_idle_timeout: quinn::IdleTimeout::from(quinn::VarInt::from_u32(15_000)) }).map_err(|e| e.to_string())?;
+    let endpoint = quinn::Endpoint::server(cfg, "127.0.0.1:0".parse().unwrap()).map_err(|e| e.to_string())?;
+    let addr = endpoint.local_addr().map_err(|e| e.to_string())?;
+    const CUTS: [usize; 10] = [1, 2, 3, 5, 7, 8, 9, 10, 13, 30];
+    let served = Arc::new(AtomicUsize::new(0));
+    let s2 = served.clone();
+    let task = tokio::spawn(async move {
+        while let Some(connecting) = endpoint.accept().await {
+            let served = s2.clone();
+            tokio::spawn(async move {
+                let Ok(conn) = connecting.await else { return };
+                while let Ok((mut send, mut recv)) = conn.accept_bi().await {
+                    let n = served.fetch_add(1, Ordering::SeqCst);
+                    tokio::spawn(async move {
+                        let mut buf = vec![0u8; 4096];
+                        let first = match recv.read(&mut buf).await {
+                            Ok(Some(n)) if n >= 9 => buf[8],
+                            _ => return,
+                        };
+                        let k = CUTS[n % CUTS.len()];
+                        let hdr = vec![("cid".to_string(), "0".to_string()), ("req_id".to_string(), "0".to_string())];
+                        let valid = if first == T_REG_REP { enc_message(Some(&hdr), b"\x05\0\0\0\0\0\0\0hello") } else { enc_message(None, b"hello") };
+                        let _ = send.write_all(&frame(T_OK, &[])).await;
+                        if first == T_REG_REQ {
+                            // wait for the request, answer it validly once, then cut
+                            let _ = recv.read(&mut buf).await;
+                            let _ = send.write_all(&enc_message(Some(&hdr), b"re:hello")).await;
+                        } else {
+                            let _ = send.write_all(&valid).await;
+                        }
+                        let _ = send.write_all(&valid[..k.min(valid.len() - 1)]).await;
+                        let _ = send.finish().await;
+                        // keep the receive side open for a moment
+                        tokio::time::sleep(Duration::from_millis(300)).await;
+                    });
+                }
+            });
+        }
+    });
+    let bo = selium::keep_alive::BackoffStrategy::constant().with_max_attempts(1).with_step(Duration::from_millis(5));
+    let client = lib_client(&addr.to_string(), certs, Some(bo)).await.map_err(|e| format!("connect to the hand-written server: {e}"))?;
+    let mut n = 0u64;
+    for i in 0..CUTS.len() {
+        // subscriber
+        if let Ok(mut sub) = client.subscriber(&format!("/c06cut/sub{}", i)).with_decoder(StringCodec).open().await {
+            for _ in 0..3 {
+                match tokio::time::timeout(Duration::from_millis(700), sub.next()).await {
+                    Ok(Some(Ok(_))) => {}
+                    _ => break,
+                }
+            }
+            n += 1;
+        }
+        // requestor
+        if let Ok(rq) = client.requestor(&format!("/c06cut/req{}", i)).with_request_encoder(StringCodec).with_reply_decoder(StringCodec).with_request_timeout(400u64) {
+            if let Ok(mut rq) = rq.open().await {
+                for _ in 0..2 {
+                    let _ = tokio::time::timeout(Duration::from_millis(1500), rq.request("hello".to_string())).await;
+                }
+                n += 1;
+            }
+        }
+        // replier
+        if let Ok(mut rp) = client
+            .replier(&format!("/c06cut/rep{}", i))
+            .with_request_decoder(StringCodec)
+            .with_reply_encoder(StringCodec)
+            .with_handler(|s: String| async move { Ok::<String, std::convert::Infallible>(s) })
+            .open()
+            .await
+        {
+            let _ = tokio::time::timeout(Duration::from_millis(900), rp.listen()).await;
+            n += 1;
+        }
+    }
+    task.abort();
+    if served.load(Ordering::SeqCst) == 0 {
+        return Err("precondition not reached: the hand-written server saw no stream".into());
+    }
+    Ok(n)
+}
